@@ -21,6 +21,11 @@ import (
 
 type sdlParser struct {
 	parser
+
+	// extending is true while the definition after an extend keyword is
+	// read. An extension does not need a body, 'extend type T @dir' or
+	// 'extend type T implements I' are complete.
+	extending bool
 }
 
 func parseSDL(root *Root, reader io.Reader) (types []Type, extends []*Extend, err error) {
@@ -63,6 +68,7 @@ func parseSDL(root *Root, reader io.Reader) (types []Type, extends []*Extend, er
 				t, err = p.readEnum(desc)
 			case extendStr:
 				x = &Extend{}
+				p.extending = true
 				goto TOP
 			case inputStr:
 				t, err = p.readInput(desc)
@@ -80,6 +86,7 @@ func parseSDL(root *Root, reader io.Reader) (types []Type, extends []*Extend, er
 				err = fmt.Errorf("%w, '%s' is not a valid schema directive at %d:%d", ErrParse, token, p.line, p.col)
 			}
 		}
+		p.extending = false
 		if err != nil {
 			break
 		}
@@ -159,6 +166,9 @@ func (p *sdlParser) readEnum(desc string) (Type, error) {
 	if err == nil {
 		b, err = p.skipSpace()
 	}
+	if err == nil && b != '{' && p.extending {
+		return enum, nil // an extension without a body
+	}
 	if err == nil && b != '{' {
 		err = fmt.Errorf("%w, expected { at %d:%d", ErrParse, p.line, p.col)
 	}
@@ -234,6 +244,9 @@ func (p *sdlParser) readInput(desc string) (Type, error) {
 	if err == nil {
 		b, err = p.skipSpace()
 	}
+	if err == nil && b != '{' && p.extending {
+		return input, nil // an extension without a body
+	}
 	if err == nil && b != '{' {
 		err = fmt.Errorf("%w, expected { at %d:%d", ErrParse, p.line, p.col)
 	}
@@ -272,6 +285,9 @@ func (p *sdlParser) readInterface(desc string) (Type, error) {
 	var b byte
 	if err == nil {
 		b, err = p.skipSpace()
+	}
+	if err == nil && b != '{' && p.extending {
+		return inf, nil // an extension without a body
 	}
 	if err == nil && b != '{' {
 		err = fmt.Errorf("%w, expected { at %d:%d", ErrParse, p.line, p.col)
@@ -369,6 +385,9 @@ func (p *sdlParser) readObject(desc string) (Type, error) {
 	var b byte
 	if err == nil {
 		b, err = p.skipSpace()
+	}
+	if err == nil && b != '{' && p.extending {
+		return obj, nil // an extension without a body
 	}
 	if err == nil && b != '{' {
 		err = fmt.Errorf("%w, expected { at %d:%d", ErrParse, p.line, p.col)
